@@ -15,6 +15,13 @@
 (*          mode "ns"   `.import * as name from file'  (the file's symbols are reachable as name.x)                     *)
 (*          mode "sel"  `.import a as x, b from file'  items = <<[name, oid, alias, aoid]>> (alias "" = none)           *)
 (*          block = constants of the parameter block `{ .const P = 1 }', defined inside the import's scope              *)
+(*   expr [paths, oidss]      several paths in ONE expression (`.word p1 + p2', the same symbol may occur twice)          *)
+(*   ifdef [path, oids, body] `.if defined(path) { body }' (the operand of defined() is an occurrence like any other)     *)
+(*   var [name, oid]          `.var name = 1'; a later `.var name = 2' in the same scope assigns to the SAME symbol: the   *)
+(*                            first statement is its definition, later ones are occurrences of it                          *)
+(*   loop [path, oids, sid, body]  `.loop path { body }': the count is an ordinary use; the body is a scope that defines    *)
+(*                            `index' (which has no definition site: NoNode)                                               *)
+(*   pad [n]                  n comment lines (layout only)                                                                *)
 (* Every table entry and occurrence also has a spelling group sp: the alias token of `a as x' and the uses of x denote   *)
 (* a's node (navigation) but are spelled x, so a rename at a touches the occurrences whose sp is a, a rename at x those  *)
 (* whose sp is the alias.                                                                                                *)
@@ -45,6 +52,8 @@ MacroStmts(prog, scope) ==
                      [] s.k = "braces" -> MacroStmts(s.body, Append(scope, s.sid))
                      [] s.k = "if0" -> MacroStmts(s.body, scope)
                      [] s.k = "ifelse" -> MacroStmts(s.then, scope) @@ MacroStmts(s.else, scope)
+                     [] s.k = "ifdef" -> MacroStmts(s.body, scope)
+                     [] s.k = "loop" -> MacroStmts(s.body, Append(scope, s.sid))
                      [] OTHER -> <<>>
        IN here @@ MacroStmts(Tail(prog), scope)
 RECURSIVE MacroKey(_, _, _)
@@ -69,6 +78,10 @@ DefsOf(prog, scope, files, md) ==
                [] s.k = "braces" -> DefsOf(s.body, Append(scope, s.sid), files, md)
                [] s.k = "if0" -> DefsOf(s.body, scope, files, md)
                [] s.k = "ifelse" -> DefsOf(s.then, scope, files, md) @@ DefsOf(s.else, scope, files, md)
+               [] s.k = "ifdef" -> DefsOf(s.body, scope, files, md)
+               [] s.k = "var" -> (Key(scope, <<s.name>>) :> Ent(s.oid, scope, Append(scope, s.name), "const"))     \* @@ keeps the first one
+               [] s.k = "loop" -> (Key(Append(scope, s.sid), <<"index">>) :> EntA(NoNode, Append(scope, s.sid), Append(scope, s.sid) \o <<"index">>, "const", NoNode))
+                                  @@ DefsOf(s.body, Append(scope, s.sid), files, md)
                [] s.k = "macrodef" -> (Key(scope, <<s.name>>) :> Ent(s.oid, scope, Append(scope, s.name), "macro"))
                                       @@ ParamEnts(s, DefScope(scope, s)) @@ DefsOf(s.body, DefScope(scope, s), files, md)
                [] s.k = "macrocall" -> LET k == MacroKey(md, scope, s.name) IN
@@ -129,6 +142,9 @@ OccS(oid, node, def, file, scope, name, path, seg, call, sp) ==
   [oid |-> oid, node |-> node, def |-> def, file |-> file, scope |-> scope, name |-> name, path |-> path, seg |-> seg, call |-> call, sp |-> sp]
 OccC(oid, node, def, file, scope, name, path, seg, call) == OccS(oid, node, def, file, scope, name, path, seg, call, node)
 Occ(oid, node, def, file, scope, name, path, seg) == OccC(oid, node, def, file, scope, name, path, seg, FALSE)
+UseOccs(tab, scope, file, path, oids) ==
+  LET r == Resolve(tab, scope, path) IN
+  {OccS(oids[i], IF r.ok THEN r.oids[i] ELSE -1, FALSE, file, scope, path[i], path, i, FALSE, IF r.ok THEN r.sps[i] ELSE -1) : i \in 1..Len(path)}
 RECURSIVE OccsOf(_, _, _, _, _, _)
 OccsOf(prog, scope, file, files, tab, md) ==
   IF prog = <<>> THEN {}
@@ -149,8 +165,13 @@ OccsOf(prog, scope, file, files, tab, md) ==
                     LET k == MacroKey(md, scope, s.name) IN
                     {OccC(s.oid, IF k = "" THEN -1 ELSE md[k].oid, FALSE, file, scope, s.name, <<s.name>>, 1, TRUE)}
                     \cup (IF k = "" THEN {} ELSE OccsOf(md[k].body, CallScope(scope, s), file, files, tab, md))
-               [] s.k = "use" -> LET r == Resolve(tab, scope, s.path) IN
-                                 {OccS(s.oids[i], IF r.ok THEN r.oids[i] ELSE -1, FALSE, file, scope, s.path[i], s.path, i, FALSE, IF r.ok THEN r.sps[i] ELSE -1) : i \in 1..Len(s.path)}
+               [] s.k = "use" -> UseOccs(tab, scope, file, s.path, s.oids)
+               [] s.k = "fuse" -> UseOccs(tab, scope, file, s.path, s.oids)                 \* `.file "{path}.bin"'
+               [] s.k = "expr" -> UNION {UseOccs(tab, scope, file, s.paths[j], s.oidss[j]) : j \in 1..Len(s.paths)}
+               [] s.k = "ifdef" -> UseOccs(tab, scope, file, s.path, s.oids) \cup OccsOf(s.body, scope, file, files, tab, md)
+               [] s.k = "loop" -> UseOccs(tab, scope, file, s.path, s.oids) \cup OccsOf(s.body, Append(scope, s.sid), file, files, tab, md)
+               [] s.k = "var" -> LET d == tab[Key(scope, <<s.name>>)].oid IN
+                                 {OccS(s.oid, d, s.oid = d, file, scope, s.name, <<s.name>>, IF s.oid = d THEN 1 ELSE 0, FALSE, d)}     \* seg 0 marks a re-assignment
                [] s.k = "import" ->
                     LET isc == Append(scope, s.sid)
                         NodeIn(n) == IF Key(isc, <<n>>) \in DOMAIN tab THEN tab[Key(isc, <<n>>)].oid ELSE -1 IN
@@ -203,7 +224,7 @@ Highlights(P, d, file) == {o.oid : o \in {x \in P.occs : x.node = d /\ x.file = 
 (* Pass 0 of the assembler has no segment yet: labels get no value, but the scopes of label blocks exist and constants   *)
 (* are defined in order.  What the occurrence denoted then (-1: nothing).                                                 *)
 PassZeroNode(P, o, ord) ==
-  IF o.def \/ o.call THEN o.node
+  IF o.def \/ o.call \/ o.seg = 0 THEN o.node
   ELSE LET tb == [k \in {k \in DOMAIN P.tab : P.tab[k].kind \in {"scope", "const", "macro"} /\ (P.tab[k].oid = NoNode \/ ord[P.tab[k].oid] < ord[o.oid])} |-> P.tab[k]]
            r == Resolve(tb, o.scope, o.path) IN
        IF r.ok THEN r.oids[o.seg] ELSE -1
@@ -211,7 +232,7 @@ PassZeroNode(P, o, ord) ==
 (* What the occurrence denoted in the first emitting pass: the labels that follow it in the text have no value yet, while *)
 (* block scopes and constants are known from pass 0.  ord: oid -> textual order.  Used only as the witness of a recorded deviation.                                  *)
 PassOneNode(P, o, ord) ==
-  IF o.def \/ o.call THEN o.node
+  IF o.def \/ o.call \/ o.seg = 0 THEN o.node
   ELSE LET tb == [k \in {k \in DOMAIN P.tab : P.tab[k].kind \in {"scope", "const", "macro"} \/ ord[P.tab[k].oid] < ord[o.oid]} |-> P.tab[k]]
            r == Resolve(tb, o.scope, o.path) IN
        IF r.ok THEN r.oids[o.seg] ELSE -1
@@ -221,6 +242,19 @@ PassOneNode(P, o, ord) ==
 PlainNode(P, o) == LET r == Resolve(P.tab, o.scope, o.path) IN IF r.ok THEN r.oids[o.seg] ELSE -1
 ShadowedCalls(P, d) == {o.oid : o \in {x \in P.occs : x.call /\ x.node = d /\ PlainNode(P, x) # d}}
 
+(* Occurrences in special positions (witnesses of recorded deviations only): the operand of defined(), the count of a  *)
+(* .loop, the interpolation of a .file name; and the symbols that are .var assigned more than once                      *)
+RECURSIVE OidsOfKind(_, _)
+OidsOfKind(prog, kind) ==
+  UNION {LET s == prog[i] IN
+         (IF s.k = kind THEN {s.oids[j] : j \in 1..Len(s.oids)} ELSE {})
+         \cup (CASE s.k \in {"braces", "if0", "ifdef", "loop", "macrodef"} -> OidsOfKind(s.body, kind)
+                 [] s.k = "label" -> OidsOfKind(s.body, kind)
+                 [] s.k = "ifelse" -> OidsOfKind(s.then, kind) \cup OidsOfKind(s.else, kind)
+                 [] OTHER -> {}) : i \in 1..Len(prog)}
+SpecialOids(files, kind) == UNION {OidsOfKind(files[f], kind) : f \in DOMAIN files}
+ReassignedVars(P) == {o.node : o \in {x \in P.occs : x.seg = 0}}
+
 (* the tokens of aliased items `a as x' of the (top-level) selective imports: witness of a recorded deviation only *)
 AliasedItems(prog) == UNION {{prog[i].items[j] : j \in {j \in 1..Len(prog[i].items) : prog[i].items[j].alias # ""}} :
                               i \in {i \in 1..Len(prog) : prog[i].k = "import"}}
@@ -229,6 +263,7 @@ AliasedItemOids(prog) == UNION {{it.oid, it.aoid} : it \in AliasedItems(prog)}
 (* ---------------------------------------------------------------- C15 *)
 SpOf(P, oid) == OccOf(P, oid).sp
 RenameSet(P, oid) == {o.oid : o \in {x \in P.occs : x.sp = SpOf(P, oid) /\ x.name # "super"}}
+RenPath(path, oids, S, new) == [j \in 1..Len(path) |-> IF oids[j] \in S /\ path[j] # "super" THEN new ELSE path[j]]
 RECURSIVE RenameProg(_, _, _)
 RenameProg(prog, S, new) ==
   [i \in 1..Len(prog) |->
@@ -245,7 +280,11 @@ RenameProg(prog, S, new) ==
                                       !.items = [j \in 1..Len(s.items) |->
                                                    [s.items[j] EXCEPT !.name = IF s.items[j].oid \in S THEN new ELSE @,
                                                                       !.alias = IF s.items[j].aoid \in S /\ @ # "" THEN new ELSE @]]]
-       [] s.k = "use" -> [s EXCEPT !.path = [j \in 1..Len(s.path) |-> IF s.oids[j] \in S /\ s.path[j] # "super" THEN new ELSE s.path[j]]]
+       [] s.k = "use" -> [s EXCEPT !.path = RenPath(s.path, s.oids, S, new)]
+       [] s.k = "fuse" -> [s EXCEPT !.path = RenPath(s.path, s.oids, S, new)]
+       [] s.k = "expr" -> [s EXCEPT !.paths = [q \in 1..Len(s.paths) |-> RenPath(s.paths[q], s.oidss[q], S, new)]]
+       [] s.k \in {"ifdef", "loop"} -> [s EXCEPT !.path = RenPath(s.path, s.oids, S, new), !.body = RenameProg(@, S, new)]
+       [] s.k = "var" -> [s EXCEPT !.name = IF s.oid \in S THEN new ELSE @]
        [] OTHER -> s]
 RenameFiles(files, S, new) == [f \in DOMAIN files |-> RenameProg(files[f], S, new)]
 
